@@ -282,13 +282,16 @@ Print Assumptions C17_short_counts_partial.
    readers, LasMMAP.__init__ and PackedPointRecord.__setitem__ (in place; the array replaced only when it has to grow); and where
    the point format is decided: LasHeader.read_from stores it, built from the format id, the point size and the Extra Bytes record
    of the VLRs, before `if read_evlrs:`, which is followed by `return header` only, and the code that loads EVLRs afterwards
-   (LasHeader.read_evlrs, LasReader.read / read_evlrs, LasMMAP.__init__) stores nothing but the EVLR list and calls nothing new *)
+   (LasHeader.read_evlrs, LasReader.read / read_evlrs, LasMMAP.__init__) stores nothing but the EVLR list and calls nothing new;
+   and a LasReader touches the VLR list of the header only under `if self.header.are_points_compressed and ..` (the laszip record of
+   a compressed file is hidden): the VLRs of an uncompressed file - the only files the model reads - are those read_from read,
+   whether the file has points or not *)
 Theorem C17_source_shapes :
   prefetch_reads = 2 /\ file_signature = LASF /\ vlr_reads_per_record = len (evlr_head ++ evlr_tail) + 1
   /\ map fst source_normalisation = ["path"; "bytes"; "other"]%string /\ open_read_evlrs_default = true
   /\ gen_hdr_read_evlrs_shape = true /\ gen_read_from_shape = true /\ gen_reader_read_shape = true
   /\ gen_read_points_shape = true /\ gen_point_readers_shape = true /\ gen_mmap_shape = true /\ gen_record_assign_shape = true
-  /\ gen_format_from_vlrs_only = true.
+  /\ gen_format_from_vlrs_only = true /\ gen_reader_keeps_vlrs_uncompressed = true.
 Proof. repeat split. Qed.
 Print Assumptions C17_source_shapes.
 
